@@ -194,7 +194,7 @@ pub fn h_custom<M: VMode>() {
         } else {
             vcover!(s.pos > s0.pos, "custom: fails after consuming");
             vassert!(s.alt.is_some(), "C20/custom.failure-leaves-pending-error");
-            vassert!(s.alt == offer_spec(s0.alt, s0.pos, 77), "C06/custom.user-error-offered-at-entry-position-by-priority");
+            vassert!(Offers::entry(&s0).at(s0.pos, 77).matches(&s), "C06/custom.user-error-offered-at-entry-position-by-priority");
         }
     });
 }
